@@ -42,7 +42,11 @@ impl Loader for Elf {
         self.wf() && segs_wf(goblin::elf::parsed(self.bytes@).program_headers@, self.base_address)
     }
 
-    open spec fn function_entries_req(&self) -> bool { false }
+    /// "well-formed" for `function_entries()`: for every defined function symbol st_value + base does not wrap and
+    /// st_name is a valid string-table offset; e_entry + base and every user entry + base do not wrap
+    open spec fn function_entries_req(&self) -> bool {
+        self.wf() && entries_wf(goblin::elf::parsed(self.bytes@), self.user_function_entries@, self.base_address)
+    }
 
     /// e_entry + base does not wrap
     open spec fn program_entry_req(&self) -> bool {
@@ -106,6 +110,123 @@ impl Loader for Elf {
 //@ before 0 `Ok(memory)`
     proof {
         assert(phs.take(phs.len() as int) =~= phs);
+    }
+//@ end
+
+//@ fn impl Loader for Elf :: fn function_entries nopub loops=3
+//@ rewrite 1 `for sym in &elf.dynsyms` => `for sym in it0: &elf.dynsyms` ## R-ghost-iter-name: names the ghost iterator of the for loop so that invariants can mention it; no executable change
+//@ rewrite 1 `for sym in &elf.syms` => `for sym in it1: &elf.syms` ## R-ghost-iter-name: as above
+//@ rewrite 1 `function_entries .entry(elf.header.e_entry) .or_insert_with(` => `btree_entry_or_insert_with(&mut function_entries, elf.header.e_entry, ` ## R-std-standin: `MAP.entry(K).or_insert_with(F)` replaced by the stand-in of units/C19/std_local.rs (same map, key and closure; the stand-in's body calls the real `entry` / `or_insert_with`)
+//@ rewrite 1 `for &user_function_entry in &self.user_function_entries {` => `for ufe__ in it2: &self.user_function_entries { let user_function_entry = *ufe__;` ## R-ref-pattern: a `&x` pattern binds x to a copy of the referenced u64 (Verus: "ref patterns" unsupported); also names the ghost iterator
+//@ rewrite 1 `{ continue; }` => `{ } else {` ## R-continue: `if C { continue; } REST` at the end of a loop body is by definition `if C { } else { REST }` (Verus: "for-loops do not yet support continue"); part 1 of 2
+//@ rewrite 1 `} Ok(` => `} } Ok(` ## R-continue: part 2 of 2, closes the else block at the end of the loop body
+//@ rewrite 1 `function_entries.into_values().collect()` => `btree_u64_into_values(function_entries)` ## R-std-standin: `MAP.into_values().collect()` replaced by the stand-in of units/C19/std_local.rs (values in ascending key order; the stand-in's body calls the real functions)
+//@ closure 0 || -> (r0: FunctionEntry)
+    ensures r0.address == elf.header.e_entry + self.base_address && r0.name is None,
+//@ spec
+    ensures
+        /*@ok*/ r is Ok,
+        /*@entries*/ r matches Ok(v) ==> entries_match(v@, spec_entries(goblin::elf::parsed(self.bytes@), self.user_function_entries@, self.base_address)),
+        /*@listing_exists*/ has_listing(entry_map(goblin::elf::parsed(self.bytes@), self.user_function_entries@, self.base_address).dom()),
+//@ before 0 `for sym in it0:`
+    let ghost p = goblin::elf::parsed(self.bytes@);
+    let ghost users = self.user_function_entries@;
+    let ghost base = self.base_address;
+    let ghost e0 = Map::<u64, EntrySpec>::empty();
+    proof {
+        assert(p.dynsyms@.take(0) =~= Seq::<Sym>::empty());
+    }
+//@ loop 0
+    invariant
+        /*@ctx*/ elf == p && p == goblin::elf::parsed(self.bytes@) && users == self.user_function_entries@ && base == self.base_address && entries_wf(p, users, base),
+        /*@prefix*/ map_matches(function_entries@, add_syms(e0, p.dynsyms@.take(it0.index@ as int), p.dynstrtab, base)),
+//@ before 0 `if sym.is_function()`
+    let ghost i = it0.index@ as int;
+    let ghost c0 = function_entries@;
+    proof {
+        assert(*sym == p.dynsyms@[i]);
+        lemma_add_syms_step(e0, p.dynsyms@, p.dynstrtab, base, i);
+        assert(is_def_fn(p.dynsyms@[i]) ==> p.dynsyms@[i].st_value + base <= u64::MAX && p.dynstrtab.valid_at(p.dynsyms@[i].st_name));
+    }
+//@ after 0 `FunctionEntry::new(sym.st_value + self.base_address, Some(name.to_string())), );`
+    proof {
+        // (conditional, so that a wrong entry makes the named invariant `prefix` fail rather than this hint)
+        if entry_matches(function_entries@[sym.st_value], sym_entry(*sym, p.dynstrtab, base)) {
+            lemma_insert_matches(c0, add_syms(e0, p.dynsyms@.take(i), p.dynstrtab, base), sym.st_value, function_entries@[sym.st_value], sym_entry(*sym, p.dynstrtab, base));
+        }
+    }
+//@ before 0 `for sym in it1:`
+    let ghost m1 = add_syms(e0, p.dynsyms@, p.dynstrtab, base);
+    proof {
+        assert(p.dynsyms@.take(p.dynsyms@.len() as int) =~= p.dynsyms@);
+        assert(p.syms@.take(0) =~= Seq::<Sym>::empty());
+    }
+//@ loop 1
+    invariant
+        /*@ctx*/ elf == p && p == goblin::elf::parsed(self.bytes@) && users == self.user_function_entries@ && base == self.base_address && entries_wf(p, users, base)
+            && m1 == add_syms(e0, p.dynsyms@, p.dynstrtab, base),
+        /*@prefix*/ map_matches(function_entries@, add_syms(m1, p.syms@.take(it1.index@ as int), p.strtab, base)),
+//@ before 1 `if sym.is_function()`
+    let ghost i = it1.index@ as int;
+    let ghost c0 = function_entries@;
+    proof {
+        assert(*sym == p.syms@[i]);
+        lemma_add_syms_step(m1, p.syms@, p.strtab, base, i);
+        assert(is_def_fn(p.syms@[i]) ==> p.syms@[i].st_value + base <= u64::MAX && p.strtab.valid_at(p.syms@[i].st_name));
+    }
+//@ after 1 `FunctionEntry::new(sym.st_value + self.base_address, Some(name.to_string())), );`
+    proof {
+        if entry_matches(function_entries@[sym.st_value], sym_entry(*sym, p.strtab, base)) {
+            lemma_insert_matches(c0, add_syms(m1, p.syms@.take(i), p.strtab, base), sym.st_value, function_entries@[sym.st_value], sym_entry(*sym, p.strtab, base));
+        }
+    }
+//@ before 0 `btree_entry_or_insert_with(`
+    let ghost m2 = add_syms(m1, p.syms@, p.strtab, base);
+    let ghost c2 = function_entries@;
+    proof {
+        assert(p.syms@.take(p.syms@.len() as int) =~= p.syms@);
+    }
+//@ before 0 `for ufe__ in it2:`
+    let ghost m3 = add_program_entry(m2, p.header.e_entry, base);
+    proof {
+        if !c2.contains_key(p.header.e_entry) {
+            let es = EntrySpec { address: p.header.e_entry + base, name: EntryName::Anon };
+            if entry_matches(function_entries@[p.header.e_entry], es) {
+                lemma_insert_matches(c2, m2, p.header.e_entry, function_entries@[p.header.e_entry], es);
+            }
+        }
+        assert(users.take(0) =~= Seq::<u64>::empty());
+    }
+//@ loop 2
+    invariant
+        /*@ctx*/ p == goblin::elf::parsed(self.bytes@) && users == self.user_function_entries@ && base == self.base_address && entries_wf(p, users, base)
+            && m3 == add_program_entry(add_syms(add_syms(e0, p.dynsyms@, p.dynstrtab, base), p.syms@, p.strtab, base), p.header.e_entry, base),
+        /*@prefix*/ map_matches(function_entries@, add_users(m3, users.take(it2.index@ as int), base)),
+//@ before 0 `if function_entries.contains_key(&user_function_entry)`
+    let ghost i = it2.index@ as int;
+    let ghost c0 = function_entries@;
+    proof {
+        assert(user_function_entry == users[i]);
+        lemma_add_users_step(m3, users, base, i);
+    }
+//@ after 0 `Some(format!("user_function_{:x}", user_function_entry)), ), );`
+    proof {
+        let es = EntrySpec { address: user_function_entry + base, name: EntryName::User(user_function_entry) };
+        if entry_matches(function_entries@[user_function_entry], es) {
+            lemma_insert_matches(c0, add_users(m3, users.take(i), base), user_function_entry, function_entries@[user_function_entry], es);
+        }
+    }
+//@ before 0 `Ok(btree_u64_into_values(function_entries))`
+    let ghost cf = function_entries@;
+    proof {
+        assert(users.take(users.len() as int) =~= users);
+        let mf = entry_map(p, users, base);
+        assert(map_matches(cf, mf));
+        // whatever ascending listing of the map the stand-in returns, it matches the specification
+        assert forall|ks: Seq<u64>, v: Seq<FunctionEntry>| #[trigger] u64_key_order_listing(cf, ks, v)
+            implies entries_match(v, sorted_values(mf)) && has_listing(mf.dom()) by {
+            lemma_key_order_listing_matches(cf, mf, ks, v);
+        }
     }
 //@ end
 
